@@ -118,3 +118,8 @@ func VV(m MaybeFloat) Float {
 //@ func (Properties).GetFontSize
 //@   props C04
 //@   pure refs
+
+//@ func (Display).Has
+//@   props C04
+//@   nopanic
+//@   inline
